@@ -81,7 +81,7 @@ def run(tier, seed):
                 def _mod(sec):
                     cr = chr(sec.get('creator', p['ph']['creator'])).lower() if sec['kind'] == 'ed' else chr(p['ph']['creator']).lower()
                     return cr + '%04x' % sec['hdr']['comp']
-                compare(ck, p, data, real, model, spec, label='ud', allow_plugins=allow, extra={'force_routes': id(p) in designed},
+                compare(ck, p, data, real, model, spec, label='ud', allow_plugins=allow, extra={'force_routes': id(p) in designed}, env_kwargs=dict(allow=allow, ud=FIX),
                         fixture_free=(not allow) or all(_mod(s) not in FIX for s in p['sections'] if s['kind'] in ('ud', 'ed')))
                 if real[0] != 'doc':
                     continue
